@@ -355,10 +355,25 @@ func c16RunAll(cases []*c16Case) error {
 
 // ---- independent predictors of the three hierarchy walks (harness-side oracles) ----
 
-// predictEntDesc simulates isEntityDescendant(child, anc): the recursion has no visited set, so it never returns
-// iff the depth-first exploration (in ParentTypes order, stopping at the first `true`) re-enters a type that is
-// still on the recursion stack.
-func predictEntDesc(rs *resolved.Schema, child, anc types.EntityType) (value, diverges bool) {
+// predictEntDesc is the independent oracle of isEntityDescendant(child, anc): `value` = anc is reachable from child by
+// ONE OR MORE ParentTypes steps (breadth-first closure, no recursion). `reenters` tells whether a depth-first descent
+// WITHOUT a visited set (in ParentTypes order, stopping at the first `true`) would re-enter a type that is still on its
+// recursion stack, i.e. would never return: that is how isEntityDescendant was written before the repair of the finding
+// `entity-descendant-unbounded-recursion`; such operations are still singled out (and sampled, each used to cost a
+// process and seconds of CPU) — they must now return the verdict `value`.
+func predictEntDesc(rs *resolved.Schema, child, anc types.EntityType) (value, reenters bool) {
+	seen := map[types.EntityType]bool{}
+	queue := append([]types.EntityType{}, rs.Entities[child].ParentTypes...)
+	for len(queue) > 0 {
+		p := queue[0]
+		queue = queue[1:]
+		if seen[p] {
+			continue
+		}
+		seen[p] = true
+		queue = append(queue, rs.Entities[p].ParentTypes...)
+	}
+	value = seen[anc]
 	on := map[types.EntityType]bool{}
 	var walk func(c types.EntityType) (bool, bool)
 	walk = func(c types.EntityType) (bool, bool) {
@@ -381,7 +396,8 @@ func predictEntDesc(rs *resolved.Schema, child, anc types.EntityType) (value, di
 		}
 		return false, false
 	}
-	return walk(child)
+	_, reenters = walk(child)
+	return value, reenters
 }
 
 func predictActDesc(rs *resolved.Schema, a, anc types.EntityUID) (value, diverges bool) {
@@ -1185,7 +1201,8 @@ func runC16(c *vh.Ctx) {
 			gen.dataOps(cs)
 		}
 	}
-	// operations predicted to (possibly) recurse forever are sampled (quick: 12, thorough: 300) — each costs seconds of CPU and a process
+	// operations on which a descent without visited set would recurse forever (the repaired defect) are sampled
+	// (quick: 12, thorough: 300) — if the defect returns each costs seconds of CPU and a process; they must return a verdict
 	flagged := 0
 	for _, cs := range phase2 {
 		for _, op := range cs.Ops {
@@ -1200,13 +1217,15 @@ func runC16(c *vh.Ctx) {
 		stride = (flagged + budget - 1) / budget
 	}
 	seen, executedFlagged, totalOps := 0, 0, 0
+	var deferred []*c16Case // the flagged operations not in the sample, per schema
 	for _, cs := range phase2 {
-		var keep []c16Op
+		var keep, later []c16Op
 		for _, op := range cs.Ops {
 			if op.Flag {
 				seen++
 				if seen%stride != 0 {
-					c.Dist("flagged-not-executed:" + op.K)
+					op.I = len(later)
+					later = append(later, op)
 					continue
 				}
 				executedFlagged++
@@ -1216,6 +1235,9 @@ func runC16(c *vh.Ctx) {
 		}
 		cs.Ops = keep
 		totalOps += len(keep)
+		if len(later) > 0 {
+			deferred = append(deferred, &c16Case{ID: 2_000_000 + cs.ID, Tag: cs.Tag, S: cs.S, Enc: cs.Enc, Ops: later, Res: map[int]string{}, Crash: map[int]c16Crash{}, RS: cs.RS, Divers: cs.Divers})
+		}
 	}
 	t1 := time.Now()
 	if err := c16RunAll(phase2); err != nil {
@@ -1223,6 +1245,34 @@ func runC16(c *vh.Ctx) {
 		return
 	}
 	c.Res.Notes = append(c.Res.Notes, fmt.Sprintf("phase 2 (%d resolved schemas, %d operations, %d/%d possibly-divergent executed, stride %d): %.1fs", len(phase2), totalOps, executedFlagged, flagged, stride, time.Since(t1).Seconds()))
+	// when every sampled flagged operation returned (the visited set is in place) the remaining ones are cheap: run them all.
+	// When one of them crashed (the defect is back) the rest stays unexecuted: each would cost a process and seconds of CPU.
+	sampleCrashed := false
+	for _, cs := range phase2 {
+		for _, op := range cs.Ops {
+			if _, crashed := cs.Crash[op.I]; crashed && op.Flag {
+				sampleCrashed = true
+			}
+		}
+	}
+	if sampleCrashed {
+		for _, cs := range deferred {
+			for _, op := range cs.Ops {
+				c.Dist("flagged-not-executed:" + op.K)
+			}
+		}
+	} else if len(deferred) > 0 {
+		t2, nDef := time.Now(), 0
+		if err := c16RunAll(deferred); err != nil {
+			c.Report(vh.Finding{Class: "worker-failure", What: err.Error(), Check: "oracle", Op: "validate", NoInput: true})
+			return
+		}
+		for _, cs := range deferred {
+			nDef += len(cs.Ops)
+		}
+		phase2 = append(phase2, deferred...)
+		c.Res.Notes = append(c.Res.Notes, fmt.Sprintf("phase 2b (no sampled possibly-divergent operation crashed: the other %d executed as well): %.1fs", nDef, time.Since(t2).Seconds()))
+	}
 
 	crashes := 0
 	for _, cs := range phase2 {
@@ -1264,12 +1314,9 @@ func runC16(c *vh.Ctx) {
 			// the walks: independent predictor + Lean model
 			switch op.K {
 			case "entdesc":
-				v, d := predictEntDesc(cs.RS, types.EntityType(op.A), types.EntityType(op.B))
-				want := fmt.Sprintf("value\t%v", v)
+				v, _ := predictEntDesc(cs.RS, types.EntityType(op.A), types.EntityType(op.B))
+				want := fmt.Sprintf("value\t%v", v) // also where a descent without visited set would not return
 				impl := strings.TrimPrefix(res, "value\t")
-				if d {
-					want = "diverges"
-				}
 				got := res
 				if crashed && cr.Kind == "stack-overflow" {
 					got, impl = "diverges", "diverges"
